@@ -15,6 +15,7 @@ RULE = ("(a) exhaustive: every byte 0..255 as a one-character input (as str wher
         "label lists with one foreign label; (c) every ordered pair of alphabets x strings over the source alphabet for "
         "as_encoded_array(x, target) and change_encoding(x, target), on contiguous arrays and on row-reordered views; (d) histories of 2..6 "
         "re-targetings in one process between alphabets that share a leading prefix (alphabets made for the case, and the predefined DNA/RNA ones), "
+        "interleaved with encodes of a few recurring plain strings whose returned arrays the caller then assigns into, "
         "so that what an earlier call leaves behind cannot change a later call. "
         "Oracle: a Python model of each alphabet (a character is accepted iff its upper-case form, for letters only, is a member). Accepted "
         "input decodes to the upper-cased original row for row with the ragged shape unchanged; rejected input raises EncodingError; "
@@ -25,7 +26,7 @@ ASSUMPTIONS = [
     "StringEncoding is checked for membership and round trip only (hash collisions of the 31-bit polynomial hash are outside what random search can reach).",
 ]
 REQUIRED_CLASSES = ["byte-exhaustive", "foreign-char", "mixed-case", "ragged-with-empty-row", "pair-retarget", "pair-change_encoding",
-                    "view-input", "string-encoding", "retarget-history", "history-prefix-then-beyond"]
+                    "view-input", "string-encoding", "retarget-history", "history-prefix-then-beyond", "history-encode-edit-encode-again"]
 BOUNDS = {"quick": "(a) complete: 256 bytes x 10 encodings x 2 routes; (b) 1500 strings per alphabet; (c) all 90 ordered pairs x 150 strings; (d) 6000 histories",
           "thorough": "(a) complete; (b) 15000 per alphabet; (c) all pairs x 1500 strings; (d) 240000 histories"}
 BUDGET_S = {"quick": 150, "thorough": 900}
@@ -85,6 +86,10 @@ def classify(case):
         cl.append("retarget-history")
         steps = case["steps"]
         nontrivial = len(steps) >= 2
+        for i, a in enumerate(steps):
+            if a.get("kind") == "encode" and a.get("edit") and any(b.get("kind") == "encode" and b["text"] == a["text"] and b["alpha"] == a["alpha"] for b in steps[i + 1:]):
+                cl.append("history-encode-edit-encode-again")
+        steps = [s_ for s_ in steps if s_.get("kind") != "encode"]
         # the hazard: a call whose codes all lie in the prefix two alphabets share, followed by one between the same pair that goes beyond it
         for i, a in enumerate(steps):
             for b in steps[i + 1:]:
@@ -108,6 +113,30 @@ def _decode_rows(x):
         return x.to_string()
     except Exception as e:  # an encoded array that cannot be decoded is itself a wrong result
         return f"<decode raised {type(e).__name__}>"
+
+
+def _check_encode_step(step, bucket_suffix=""):
+    """Encode a plain string (or a one-row list); the result must decode to the upper-cased text. Afterwards the caller may assign into
+    the array it was given (its own data): that must not change what a later encode of any text returns."""
+    from bionumpy.encoded_array import as_encoded_array
+    text, alpha = step["text"], step["alpha"]
+    enc = enc_of(alpha)
+    try:
+        r = as_encoded_array(text if step.get("form", "str") == "str" else [text], enc) if step.get("via", "as") == "as" else enc.encode(text)
+    except Exception as e:
+        return [Failure(f"C06:member-rejected{bucket_suffix}", {"text": text, "alpha": alpha, "error": repr(e)[:200]})]
+    got = _decode_rows(r)
+    got = got if isinstance(got, str) else "".join(got)
+    if got != model_upper_text(text):
+        return [Failure(f"C06:decodes-differently{bucket_suffix}", {"text": text, "alpha": alpha, "decoded": got})]
+    edit = step.get("edit")
+    if edit and len(text) and not isinstance(_decode_rows(r), list):
+        i = edit["at"] % len(text)
+        try:
+            r[i:i + 1] = edit["letter"]
+        except Exception:
+            pass
+    return []
 
 
 def _check_pair(case, stats=None, bucket_suffix=""):
@@ -202,7 +231,10 @@ def check(case, stats=None):
     if kind == "history":
         # a sequence of re-targetings in one process: an earlier call must not change what a later call does
         for i, step in enumerate(case["steps"]):
-            fails = _check_pair(step, stats, bucket_suffix="-after-earlier-calls" if i else "")
+            if step.get("kind") == "encode":
+                fails = _check_encode_step(step, "-after-earlier-calls" if i else "")
+            else:
+                fails = _check_pair(step, stats, bucket_suffix="-after-earlier-calls" if i else "")
             if fails:
                 fails[0].detail["step"] = i
                 fails[0].detail["earlier_steps"] = [{"pair": f"{s['src']}->{s['dst']}", "rows": s["rows"], "how": s["how"]} for s in case["steps"][:i]]
@@ -296,7 +328,19 @@ def history_case(draw):
     else:
         names = draw(st.lists(st.sampled_from(["ACGT", "ACTG", "ACGTn", "ACTGn", "ACUG"]), min_size=2, max_size=3, unique=True))
     steps = []
+    pool = [draw(st.text(alphabet=letters_of(names[0]), min_size=1, max_size=draw(st.sampled_from([1, 4, 16, 20])))) for _ in range(2)]
     for _ in range(draw(st.integers(2, 6))):
+        if draw(st.integers(0, 2)) == 0:
+            # encode one of a few texts (so the same text recurs), sometimes followed by an in-place edit of the returned array
+            text = draw(st.sampled_from(pool))
+            step = {"kind": "encode", "text": text, "alpha": names[0], "form": draw(st.sampled_from(["str", "str", "list"])),
+                    "via": draw(st.sampled_from(["as", "encode"]))}
+            if step["form"] == "list":
+                step["via"] = "as"
+            if draw(st.booleans()):
+                step["edit"] = {"at": draw(st.integers(0, 20)), "letter": draw(st.sampled_from(letters_of(names[0])))}
+            steps.append(step)
+            continue
         src, dst = draw(st.sampled_from(names)), draw(st.sampled_from(names))
         chars = letters_of(src)
         m = draw(st.integers(1, len(chars)))
